@@ -328,6 +328,50 @@ def running_child_on_same_runner(ctx: Ctx, kind: str) -> None:
         T.C11_RELEASE.set()
 
 
+def worker_signal_during_cleanup(ctx: Ctx) -> None:
+    """a MultiThreadRunner WORKER PROCESS main in the main thread of a fresh interpreter (real signal handlers): a task is RUNNING,
+    the worker enters its clean-up because the parent is gone / Ctrl-C / SIGTERM, and a further SIGTERM (the parent's, the
+    supervisor's) arrives before the kill, between KILLED and REROUTED, or between REROUTED and the queue push"""
+    import json
+    import os
+    import subprocess
+    import sys
+    from concurrent.futures import ThreadPoolExecutor
+
+    cases = [(r, p) for r in ("parent-gone", "ctrl-c", "sigterm") for p in ("none", "before-kill", "after-killed", "before-push")]
+    if ctx.quick:
+        cases = [c for c in cases if c[1] != "none" or c[0] == "sigterm"]
+    envv = dict(os.environ)
+    envv["PYTHONPATH"] = os.pathsep.join(p for p in sys.path if p)
+
+    def one(k: int, reason: str, point: str) -> dict:
+        arg = {"db": os.path.join(ctx.tmp, f"c11w{k}.db"), "tmp": ctx.tmp, "app_id": f"c11w{k}", "reason": reason, "point": point}
+        p = subprocess.run([sys.executable, "-m", "harness.c11_child", json.dumps(arg)], capture_output=True, text=True, env=envv, timeout=120)
+        lines = [ln for ln in p.stdout.strip().splitlines() if ln.startswith("{")]
+        if not lines:
+            return {"crashed": (p.stderr or p.stdout)[-300:], "rc": p.returncode}
+        return json.loads(lines[-1])
+
+    with ThreadPoolExecutor(max_workers=6) as ex:
+        futs = [(r, pt, ex.submit(one, k, r, pt)) for k, (r, pt) in enumerate(cases)]
+        res = [(r, pt, f.result()) for r, pt, f in futs]
+    for reason, point, d in res:
+        ctx.count()
+        ctx.distinct(("worker-signal", reason, point, d.get("status")))
+        rep = {"kind": "worker-signal-during-cleanup", "reason": reason, "second_sigterm": point, "result": d}
+        if "crashed" in d:
+            # the interpreter died of the signal before it could report: with SIGTERM ignored during clean-up it never does
+            ctx.report(f"worker-cleanup-killed-by-signal:{point}", f"worker process (clean-up because {reason}) did not survive a SIGTERM {point}: rc {d.get('rc')} {d['crashed'][-120:]}", rep)
+            continue
+        st = d["status"]
+        ok = st in ("success", "failed", "concurrency_controlled_final") or (st in ("registered", "rerouted", "retry") and d["owner"] is None and d["queued"] >= 1)
+        if not ok:
+            ctx.report(f"stop-leaves[worker-process]:{st}:sigterm-{point}",
+                       f"MultiThreadRunner worker process cleaning up because {reason}, a further SIGTERM arrives {point}: the RUNNING invocation ends {st}, owner {d['owner']}, queued {d['queued']}x "
+                       f"(clean-up {'returned' if d['returned'] else 'was interrupted: ' + str(d['error'])})", rep)
+    ctx.notes["worker_signal_cases"] = len(res)
+
+
 def realtime(ctx: Ctx, kind: str) -> None:
     """the whole runner in real time: workloads of independent / retrying tasks, stop requested at random moments"""
     from pynenc.invocation.status import InvocationStatus as S
@@ -410,6 +454,7 @@ def run(ctx: Ctx) -> None:
             running_child_on_same_runner(ctx, kind)
             realtime(ctx, kind)
         waiting_parent(ctx, "mem")
+        worker_signal_during_cleanup(ctx)
     finally:
         drv.close()
     ctx.assumptions += [
